@@ -70,7 +70,7 @@ class Runner:
         if self.ptype == "qtable":
             return SimQTable(self.env0, np.zeros((self.NS, self.comps[0])), epsilon=self.cls["epsilon"])
         if self.ptype == "mlp_ac":
-            return MLPActorCriticPolicy(self.env0, feature_size=8, feature_width=8, value_width=8, action_width=8, key=jr.key(seed))
+            return MLPActorCriticPolicy(self.env0, feature_size=8, feature_width=8, value_width=8, action_width=8, key=jr.key(seed), **dict(self.cls.get("mlp_kwargs", {})))
         if self.ptype == "mlp_q":
             return MLPQPolicy(self.env0, epsilon=self.cls["epsilon"], width_size=8, depth=1, key=jr.key(seed))
         raise ValueError(self.ptype)
